@@ -8,6 +8,7 @@ import (
 	"encoding/hex"
 	"fmt"
 	"math/big"
+	"strings"
 
 	"github.com/tjfoc/gmsm/pkcs12"
 	"github.com/tjfoc/gmsm/sm2"
@@ -22,7 +23,10 @@ import (
 // decode, what comes out must be the key and certificate OpenSSL put in.
 func runC17P12Fixtures(c *Ctx) {
 	rep := c.Rep
-	for _, fx := range p12Fixtures {
+	all := append(append([]p12Fixture{}, p12Fixtures...), p12JavaFixtures...)
+	all = append(all, p12NullPwFixtures...)
+	for _, fx := range all {
+		pw := fx.password()
 		pfx, _ := hex.DecodeString(fx.pfx)
 		leaf, _ := hex.DecodeString(fx.leafDER)
 		keyInfo, _ := hex.DecodeString(fx.keyInfo)
@@ -55,7 +59,7 @@ func runC17P12Fixtures(c *Ctx) {
 		var pk interface{}
 		var certs []*gx509.Certificate
 		var err error
-		if pi := mon.Guard(func() { pk, certs, err = pkcs12.DecodeAll(pfx, "pw") }); pi != nil {
+		if pi := mon.Guard(func() { pk, certs, err = pkcs12.DecodeAll(pfx, pw) }); pi != nil {
 			rep.Violation("C17/pkcs12.DecodeAll/panic-on-third-party-bundle/"+pi.Func, pi.Value, w)
 			continue
 		}
@@ -64,13 +68,19 @@ func runC17P12Fixtures(c *Ctx) {
 		if decodes && (!sameKey(pk) || !hasLeaf(certs)) {
 			rep.Violation("C17/pkcs12.DecodeAll/third-party-bundle-decodes-to-another-key-or-certificate/"+fx.name, fmt.Sprintf("key %T, %d certificates", pk, len(certs)), w)
 		}
-		if pi := mon.Guard(func() { pkcs12.ToPEM(pfx, "pw") }); pi != nil {
+		if pi := mon.Guard(func() { pkcs12.ToPEM(pfx, pw) }); pi != nil {
 			rep.Violation("C17/pkcs12.ToPEM/panic-on-third-party-bundle/"+pi.Func, pi.Value, w)
 		}
-		if pi := mon.Guard(func() { pkcs12.Decode(pfx, "pw") }); pi != nil {
+		if pi := mon.Guard(func() { pkcs12.Decode(pfx, pw) }); pi != nil {
 			rep.Violation("C17/pkcs12.Decode/panic-on-third-party-bundle/"+pi.Func, pi.Value, w)
 		}
-		for _, wp := range []string{"", "pW", "pw ", "pwx", "p"} {
+		if !decodes && fx.mustDecode {
+			rep.Violation("C17/pkcs12.DecodeAll/bundle-in-implemented-algorithms-rejected-with-its-password/"+fx.name, shortErr(err), w)
+		}
+		for _, wp := range []string{"", "pW", "pw ", "pwx", "p", pw + "x", "\x00" + pw} {
+			if wp == pw || (pw == "" && strings.Trim(wp, "\x00") == "") {
+				continue
+			}
 			var e error
 			if pi := mon.Guard(func() { _, _, e = pkcs12.DecodeAll(pfx, wp) }); pi != nil {
 				rep.Violation("C17/pkcs12.DecodeAll/panic-on-wrong-password/"+pi.Func, pi.Value, w)
@@ -91,12 +101,12 @@ func runC17P12Fixtures(c *Ctx) {
 			var pk2 interface{}
 			var certs2 []*gx509.Certificate
 			var e error
-			if pi := mon.Guard(func() { pk2, certs2, e = pkcs12.DecodeAll(m, "pw") }); pi != nil {
+			if pi := mon.Guard(func() { pk2, certs2, e = pkcs12.DecodeAll(m, pw) }); pi != nil {
 				rep.Violation("C17/pkcs12.DecodeAll/panic-on-mutated-bundle/"+pi.Func, pi.Value, map[string]interface{}{"fixture": fx.name, "position": p, "pfx": mon.Hex(m)})
 			} else if e == nil && (!sameKey(pk2) || !hasLeaf(certs2)) {
 				rep.Violation("C17/pkcs12/mutated-bundle-decodes-to-different-key-or-certificate/third-party/"+fx.name, fmt.Sprintf("byte %d", p), map[string]interface{}{"fixture": fx.name, "position": p, "mutated": mon.Hex(m)})
 			}
-			if pi := mon.Guard(func() { pkcs12.ToPEM(m, "pw") }); pi != nil {
+			if pi := mon.Guard(func() { pkcs12.ToPEM(m, pw) }); pi != nil {
 				rep.Violation("C17/pkcs12.ToPEM/panic-on-mutated-bundle/"+pi.Func, pi.Value, map[string]interface{}{"fixture": fx.name, "position": p, "pfx": mon.Hex(m)})
 			}
 			rep.EvalN("pkcs12/third-party/mutate/"+fx.name, 1, true)
